@@ -3,6 +3,7 @@ package c09
 import (
 	"bytes"
 	"fmt"
+	"hash/fnv"
 	"testing"
 
 	"verif/internal/h"
@@ -24,11 +25,17 @@ type MPCase struct {
 	Reuse bool        `json:"reuse"` // the output share holds an earlier aggregate
 	Drop  int         `json:"drop"`  // level drop of the ciphertext (key-switch protocols)
 	Rot   int         `json:"rot"`
+	// evaluation-key parameters of the EVK / GKG / RKG shares
+	EvkLevelQDrop int  `json:"evkLevelQDrop"`
+	EvkNoP        bool `json:"evkNoP"`   // LevelP = -1 although the parameters may have an auxiliary modulus
+	EvkBase2      int  `json:"evkBase2"` // BaseTwoDecomposition (0 = none)
+	EvkDefault    bool `json:"evkDefault"` // no explicit evaluation-key parameters at all
 }
 
 func (c MPCase) RandSeed() uint64 { return c.Seed }
 
-var mpProtos = []string{"PublicKeyGen", "RelinearizationKeyGen", "EvaluationKeyGen", "GaloisKeyGen", "KeySwitch", "PublicKeySwitch"}
+var mpProtos = []string{"PublicKeyGen", "RelinearizationKeyGen", "RelinearizationKeyGenRoundTwo", "EvaluationKeyGen", "GaloisKeyGen", "KeySwitch", "PublicKeySwitch",
+	"EvaluationKeyGen", "GaloisKeyGen", "RelinearizationKeyGen"}
 
 func genMPCase(t *rapid.T) MPCase {
 	s := poolSpec(t, true, nil, 0)
@@ -40,6 +47,11 @@ func genMPCase(t *rapid.T) MPCase {
 		Reuse: rapid.Bool().Draw(t, "reuse"),
 		Drop:  rapid.IntRange(0, len(s.Q)-1).Draw(t, "drop"),
 		Rot:   rapid.IntRange(1, 5).Draw(t, "rot"),
+
+		EvkLevelQDrop: rapid.IntRange(0, len(s.Q)-1).Draw(t, "evkLevelQDrop"),
+		EvkNoP:        rapid.Bool().Draw(t, "evkNoP"),
+		EvkBase2:      []int{0, 4, 7, 12, 16, 5, 9}[rapid.IntRange(0, 6).Draw(t, "evkBase2")],
+		EvkDefault:    rapid.IntRange(0, 3).Draw(t, "evkDefault") == 0,
 	}
 }
 
@@ -181,7 +193,7 @@ func mpCheck[S any, PS binShare[S]](c MPCase, rec *h.Rec, o mpOps[S]) error {
 		return fail("C09:"+name+".AggregateShares:"+cause+":wrong-value", "%s.AggregateShares with %s (reused output %v) differs from the aggregation of distinct shares into a fresh output (%d vs %d bytes)", name, aliasNames[c.Alias], c.Reuse, len(got), len(want))
 	}
 	rec.Class("result=identical")
-	rec.NonTrivial(fmt.Sprintf("%s|%s|reuse=%v|ntt=%v|P=%d", name, aliasNames[c.Alias], c.Reuse, c.RLWE.NTT, len(c.RLWE.P)))
+	rec.NonTrivial(fmt.Sprintf("%s|%s|reuse=%v|ntt=%v|P=%d|evkNoP=%v|base2>0=%v|evkDefault=%v", name, aliasNames[c.Alias], c.Reuse, c.RLWE.NTT, len(c.RLWE.P), c.EvkNoP, c.EvkBase2 > 0, c.EvkDefault))
 	return nil
 }
 
@@ -220,6 +232,22 @@ func runMP(c MPCase, rec *h.Rec) error {
 	ctFP := func() string { return fmt.Sprintf("%v", snapEl(ct.El(), true)) }
 	noise := ring.DiscreteGaussian{Sigma: 8, Bound: 48}
 
+	// evaluation-key parameters (level Q, level P incl. -1, base-2 decomposition)
+	var evkp []rlwe.EvaluationKeyParameters
+	if !c.EvkDefault {
+		lq := clampLevel(p.MaxLevelQ(), c.EvkLevelQDrop)
+		lp := p.MaxLevelP()
+		if c.EvkNoP {
+			lp = -1
+		}
+		b2 := c.EvkBase2
+		evkp = []rlwe.EvaluationKeyParameters{{LevelQ: &lq, LevelP: &lp, BaseTwoDecomposition: &b2}}
+		rec.Classf("evk:levelP=%d", lp)
+		rec.Classf("evk:base2>0=%v", b2 > 0)
+	} else {
+		rec.Class("evk:default")
+	}
+
 	var pan string
 	var res error
 	_, pan = protect(func() error {
@@ -235,12 +263,12 @@ func runMP(c MPCase, rec *h.Rec) error {
 			})
 		case "RelinearizationKeyGen":
 			pr := multiparty.NewRelinearizationKeyGenProtocol(p)
-			crp := pr.SampleCRP(crs)
+			crp := pr.SampleCRP(crs, evkp...)
 			eph := make([]*rlwe.SecretKey, 2)
 			res = mpCheck(c, rec, mpOps[multiparty.RelinearizationKeyGenShare]{
-				alloc: func() multiparty.RelinearizationKeyGenShare { _, r1, _ := pr.AllocateShare(); return r1 },
+				alloc: func() multiparty.RelinearizationKeyGenShare { _, r1, _ := pr.AllocateShare(evkp...); return r1 },
 				gen: func(i int, out *multiparty.RelinearizationKeyGenShare) error {
-					e0, _, _ := pr.AllocateShare()
+					e0, _, _ := pr.AllocateShare(evkp...)
 					eph[i] = e0
 					pr.GenShareRoundOne(sks[i], crp, eph[i], out)
 					return nil
@@ -251,21 +279,50 @@ func runMP(c MPCase, rec *h.Rec) error {
 				},
 				inputs: func() string { return skFP() + "crp:" + hashMatrixQP(crp.Value) },
 			})
+		case "RelinearizationKeyGenRoundTwo":
+			pr := multiparty.NewRelinearizationKeyGenProtocol(p)
+			crp := pr.SampleCRP(crs, evkp...)
+			eph := make([]*rlwe.SecretKey, 2)
+			var r1 [2]multiparty.RelinearizationKeyGenShare
+			for i := range r1 {
+				eph[i], r1[i], _ = pr.AllocateShare(evkp...)
+				pr.GenShareRoundOne(sks[i], crp, eph[i], &r1[i])
+			}
+			_, agg1, _ := pr.AllocateShare(evkp...)
+			pr.AggregateShares(r1[0], r1[1], &agg1)
+			fp := func() string {
+				b, _ := agg1.MarshalBinary()
+				hh := fnv.New64a()
+				_, _ = hh.Write(b)
+				return skFP() + fmt.Sprintf("eph:%x,%x;round1:%x", skHash(eph[0]), skHash(eph[1]), hh.Sum64())
+			}
+			res = mpCheck(c, rec, mpOps[multiparty.RelinearizationKeyGenShare]{
+				alloc: func() multiparty.RelinearizationKeyGenShare { _, _, r2 := pr.AllocateShare(evkp...); return r2 },
+				gen: func(i int, out *multiparty.RelinearizationKeyGenShare) error {
+					pr.GenShareRoundTwo(eph[i], sks[i], agg1, out)
+					return nil
+				},
+				agg: func(a, b multiparty.RelinearizationKeyGenShare, out *multiparty.RelinearizationKeyGenShare) error {
+					pr.AggregateShares(a, b, out)
+					return nil
+				},
+				inputs: fp,
+			})
 		case "EvaluationKeyGen":
 			pr := multiparty.NewEvaluationKeyGenProtocol(p)
-			crp := pr.SampleCRP(crs)
+			crp := pr.SampleCRP(crs, evkp...)
 			res = mpCheck(c, rec, mpOps[multiparty.EvaluationKeyGenShare]{
-				alloc:  func() multiparty.EvaluationKeyGenShare { return pr.AllocateShare() },
+				alloc:  func() multiparty.EvaluationKeyGenShare { return pr.AllocateShare(evkp...) },
 				gen:    func(i int, out *multiparty.EvaluationKeyGenShare) error { return pr.GenShare(sks[i], skOut, crp, out) },
 				agg:    func(a, b multiparty.EvaluationKeyGenShare, out *multiparty.EvaluationKeyGenShare) error { return pr.AggregateShares(a, b, out) },
 				inputs: func() string { return skFP() + "crp:" + hashMatrixQP(crp.Value) },
 			})
 		case "GaloisKeyGen":
 			pr := multiparty.NewGaloisKeyGenProtocol(p)
-			crp := pr.SampleCRP(crs)
+			crp := pr.SampleCRP(crs, evkp...)
 			galEl := p.GaloisElement(c.Rot)
 			res = mpCheck(c, rec, mpOps[multiparty.GaloisKeyGenShare]{
-				alloc:  func() multiparty.GaloisKeyGenShare { return pr.AllocateShare() },
+				alloc:  func() multiparty.GaloisKeyGenShare { return pr.AllocateShare(evkp...) },
 				gen:    func(i int, out *multiparty.GaloisKeyGenShare) error { return pr.GenShare(sks[i], galEl, crp, out) },
 				agg:    func(a, b multiparty.GaloisKeyGenShare, out *multiparty.GaloisKeyGenShare) error { return pr.AggregateShares(a, b, out) },
 				inputs: func() string { return skFP() + "crp:" + hashMatrixQP(crp.Value) },
